@@ -8,6 +8,11 @@ exactly 2 px / 3 px, diagonal, 3-point polyline, inside the nested square): ALL 
 LayoutExtractor.process_page for all 16 combinations of (detect regions, detect lines, merge lines, multi-orientation) with a
 stub detector, and TextlineExtractorSimple with a stub engine.
 
+Environment answers: ONE call the library makes to the geometry library (shapely / GEOS: intersects, intersection; thorough tier also the
+operations spelled as attributes is_valid, convex_hull, length, area) fails with TopologicalError / GEOSException - every fault point of
+assign_lines_to_regions for all single regions (thorough: all sets of 1..2) x all sets of 1..2 baselines, and of LayoutExtractor.process_page
+for 2 scenarios x 16 option combinations.  The call may raise; what it returns is judged like any result, except that no line is DEMANDED.
+
 Oracle: shapely predicates evaluated on the OUTPUTS (containment, longest piece recomputed independently, id uniqueness).
 """
 import itertools
@@ -18,8 +23,8 @@ ID = 'C11'
 
 MANIFEST = dict(
     technique='explicit-state enumeration of a region-polygon x baseline lattice on the real assign_lines_to_regions, and of all option combinations of the real LayoutExtractor.process_page / TextlineExtractorSimple with stub detectors; geometric oracle on the outputs',
-    text='Bounded exhaustive: every set of 1-2 (quick) / 1-3 (thorough) regions over a 10-polygon alphabet (convex, concave, self-intersecting, self-touching, nested, overlapping, disjoint) x every set of 1-3 baselines over a 13-line alphabet (about 16 000 / 58 000 configurations). Every placed line must lie inside its region with a baseline that is a piece of the detected one and an outline clipped to the region; wholly-inside lines longer than 2 px must be placed unchanged, untouched regions get nothing, multiple entries keep the longest piece, and all ids of a page are distinct (also as keys of the logits dictionary). All 16 option combinations of the layout extractor with a stub detector and the simple text-line extractor are driven through the same oracle. Added sub-sweeps: detections held as int32 / int64 / float32 arrays, a self-touching region, MERGE_LINES scenarios (a three-fragment row, zero heights, tilted text with nothing to merge) and the coverage clause for merged lines. Baselines of 2 x 2 px extent that are longer than 2 px (diagonal, hook).',
-    note='For invalid (self-intersecting / self-touching) region polygons the convex hull is the reference shape (that is what the code documents); a baseline that additionally touches the region in isolated points may be placed or not.',
+    text='Bounded exhaustive: every set of 1-2 (quick) / 1-3 (thorough) regions over a 10-polygon alphabet (convex, concave, self-intersecting, self-touching, nested, overlapping, disjoint) x every set of 1-3 baselines over a 13-line alphabet (about 16 000 / 58 000 configurations). Every placed line must lie inside its region with a baseline that is a piece of the detected one and an outline clipped to the region; wholly-inside lines longer than 2 px must be placed unchanged, untouched regions get nothing, multiple entries keep the longest piece, and all ids of a page are distinct (also as keys of the logits dictionary). All 16 option combinations of the layout extractor with a stub detector and the simple text-line extractor are driven through the same oracle. Added sub-sweeps: detections held as int32 / int64 / float32 arrays, a self-touching region, MERGE_LINES scenarios (a three-fragment row, zero heights, tilted text with nothing to merge) and the coverage clause for merged lines. Baselines of 2 x 2 px extent that are longer than 2 px (diagonal, hook). Environment answers: one GEOS operation called by the library (intersects / intersection, thorough tier also is_valid / convex_hull / length / area) fails with TopologicalError or GEOSException, every fault point of the assignment for every single region (thorough: 1-2 regions) x 1-2 baselines and of the layout extractor for two scenarios x 16 option combinations: the call may raise, but whatever it returns must still lie inside the region polygons (not merely their hulls), be clipped pieces of detections, never sit in an untouched region and carry distinct ids.',
+    note='For invalid (self-intersecting / self-touching) region polygons the convex hull is the reference shape (that is what the code documents); a baseline that additionally touches the region in isolated points may be placed or not. After an injected failure of a geometry operation the clauses that demand a line in a region are not applied (the failure may cost the line).',
     ref='3/C11')
 
 REGIONS = [
@@ -54,8 +59,13 @@ LINES = [
     [(40, 42), (42, 42), (42, 40)],  # 15 a 2 x 2 px hook, 4 px long
 ]
 HEIGHTS = [4, 2]
-BOUNDS = {'quick': dict(max_regions=2), 'thorough': dict(max_regions=3)}
+# geos_*: the sub-sweep 'one GEOS operation called by the library fails' (see check_assign): region sets up to geos_regions, line sets up to
+# geos_lines; geos_props: also the operations spelled as attributes (is_valid, convex_hull, length, area)
+BOUNDS = {'quick': dict(max_regions=2, geos_regions=1, geos_lines=2, geos_props=0),
+          'thorough': dict(max_regions=3, geos_regions=2, geos_lines=2, geos_props=1)}
 BOUNDS['replay'] = BOUNDS['quick']
+GEOS_ERRORS = ['TopologicalError', 'GEOSException']   # what shapely 1 raised (and the library has an except clause for) / what shapely 2 raises
+GEOS_EXTRACTOR_SCENARIOS = [0, 1]                      # several regions and orientations / the U-shaped region crossed twice
 EPS = 1e-6
 
 
@@ -70,6 +80,8 @@ def shards(tier):
         for first in range(n):
             out.append({'kind': 'assign', 'nreg': r, 'first': first})
     out.append({'kind': 'extractor'})
+    for scen in GEOS_EXTRACTOR_SCENARIOS:
+        out.append({'kind': 'extractor-geos', 'scenario': scen})
     return out
 
 
@@ -84,6 +96,12 @@ def run_shard(shard, ctx, tier):
         for scen in range(len(SCENARIOS)):
             guarded_check(mod, {'simple': scen}, ctx)
         return
+    B = BOUNDS[tier]
+    if shard['kind'] == 'extractor-geos':
+        for opts in itertools.product((0, 1), repeat=4):
+            for exc in GEOS_ERRORS:
+                guarded_check(mod, {'extractor': list(opts), 'scenario': shard['scenario'], 'geos_fails': exc, 'geos_props': B['geos_props']}, ctx)
+        return
     n = len(REGIONS)
     for rest in itertools.combinations(range(shard['first'] + 1, n), shard['nreg'] - 1):
         regs = [shard['first']] + list(rest)
@@ -93,6 +111,9 @@ def run_shard(shard, ctx, tier):
                 if shard['nreg'] == 1 and k <= 2:
                     for dt in ('int32', 'int64', 'float32'):      # detections held in integer / single-precision arrays (rounded to pixels)
                         guarded_check(mod, {'regions': regs, 'lines': list(ls), 'dt': dt}, ctx)
+                if shard['nreg'] <= B['geos_regions'] and k <= B['geos_lines']:
+                    for exc in GEOS_ERRORS:                       # environment answer: ONE GEOS operation the library calls fails, every fault point
+                        guarded_check(mod, {'regions': regs, 'lines': list(ls), 'geos_fails': exc, 'geos_props': B['geos_props']}, ctx)
 
 
 # ------------------------------------------------------------------ oracle on outputs
@@ -115,8 +136,10 @@ def line_pieces(geom):
     return pieces, points
 
 
-def check_regions(regions_out, inputs, ctx, K, desc, case, check_presence=True):
-    """regions_out: RegionLayout list after assignment; inputs: list of (baseline array, outline array)"""
+def check_regions(regions_out, inputs, ctx, K, desc, case, check_presence=True, must_place=True):
+    """regions_out: RegionLayout list after assignment; inputs: list of (baseline array, outline array).
+    must_place=False (result returned although an operation of the geometry library failed): the two clauses that DEMAND a line in a region
+    are not applied (the failure may cost the line); everything that IS placed is judged as always"""
     import shapely.geometry as sg
     ids = []
     for reg in regions_out:
@@ -151,7 +174,7 @@ def check_regions(regions_out, inputs, ctx, K, desc, case, check_presence=True):
                 return False
             pieces, points = line_pieces(shape.intersection(sg.LineString(inputs[i][0])))
             longest = max(p.length for p in pieces) if pieces else 0
-            if bl.length < longest - 1e-6:
+            if not (bl.length >= longest - 1e-6):        # (NaN-aware)
                 ctx.violation('keeps-longest-piece', f'{K}/not-the-longest-piece',
                               f'{desc}: line {line.id} keeps a piece of length {bl.length:.2f}, the longest piece inside region {reg.id} is {longest:.2f}', case)
                 return False
@@ -172,16 +195,18 @@ def check_regions(regions_out, inputs, ctx, K, desc, case, check_presence=True):
                     return False
                 continue
             if shape.covers(bl_in) and not shape.boundary.intersects(bl_in) and bl_in.length > 2:
+                if not present and not must_place:
+                    continue
                 if not present:
                     ctx.violation('wholly-inside-line-always-placed', f'{K}/inside-line-missing', f'{desc}: input line {i} lies wholly inside region {reg.id}', case)
                     return False
                 ln = reg.lines[placed_sources.index(i)]
-                if np.asarray(ln.baseline).shape != np.asarray(b).shape or np.abs(np.asarray(ln.baseline, dtype=float) - np.asarray(b, dtype=float)).max() > 1e-6:
+                if np.asarray(ln.baseline).shape != np.asarray(b).shape or not (np.abs(np.asarray(ln.baseline, dtype=float) - np.asarray(b, dtype=float)).max() <= 1e-6):
                     ctx.violation('wholly-inside-line-always-placed', f'{K}/inside-line-changed',
                                   f'{desc}: input line {i} baseline {np.asarray(b).tolist()} became {np.asarray(ln.baseline).tolist()}', case)
                     return False
                 ctx.tag('wholly-inside')
-            elif pieces and not points and max(p.length for p in pieces) > 2 + 1e-6 and not present:
+            elif pieces and not points and max(p.length for p in pieces) > 2 + 1e-6 and not present and must_place:
                 ctx.violation('crossing-line-keeps-its-piece', f'{K}/crossing-line-missing',
                               f'{desc}: input line {i} has {max(p.length for p in pieces):.2f} px inside region {reg.id} but was not placed', case)
                 return False
@@ -208,9 +233,65 @@ def make_inputs(line_idx, heights=None, dt=None):
     return out
 
 
+def geos_injector(case):
+    """environment answer 'an operation of the geometry library fails': every call the library makes to a GEOS predicate / set operation
+    (with geos_props also the ones spelled as attributes) is a fault point; it raises the error class named in the case"""
+    from mc import faults
+    props = bool(case.get('geos_props'))
+    return (faults.AttributeInjector if props else faults.Injector)(faults.geos_operations(props), faults.geos_error(case['geos_fails']))
+
+
+def hull_gap_reached(region_idx, inputs):
+    """does a detected baseline run through a part of the convex hull of a (valid, concave) region that is not region?"""
+    import shapely.geometry as sg
+    for i in region_idx:
+        shape = ref_shape(REGIONS[i])
+        gap = shape.convex_hull.difference(shape)
+        if gap.area > 1e-9 and any(gap.intersection(sg.LineString(b)).length > 1e-9 for b, _ in inputs):
+            return True
+    return False
+
+
+def check_assign_geos(case, ctx):
+    """ONE call of the library to the geometry library fails (all fault points in turn).  The assignment may raise; a result that is
+    returned is a result like any other: every line it places lies inside its region, is a piece of a detected baseline, clipped, the longest
+    piece, never in a region it does not touch, ids distinct.  Only the clauses demanding that a line IS placed are not applied."""
+    from pero_ocr.core.layout import RegionLayout
+    from pero_ocr.layout_engines.layout_helpers import assign_lines_to_regions
+    inputs = make_inputs(case['lines'])
+    kind = case['geos_fails']
+    ctx.state((tuple(case['regions']), tuple(case['lines']), 'geos', kind, bool(case.get('geos_props'))))
+
+    def run():
+        regs = [RegionLayout(f'r{i}', np.asarray(REGIONS[i], dtype=np.float64)) for i in case['regions']]
+        return assign_lines_to_regions([b.copy() for b, _ in inputs], [list(HEIGHTS) for _ in inputs], [o.copy() for _, o in inputs], regs)
+    gap = hull_gap_reached(case['regions'], inputs)
+    desc = f'regions {[REGIONS[i] for i in case["regions"]]}, baselines {[LINES[i] for i in case["lines"]]}'
+    for k, site, (what, val) in geos_injector(case).explore(run):
+        ctx.executed()
+        if k is None:
+            if what == 'raised':
+                return          # (the same case without a failure is enumerated too and reports this)
+            continue
+        op = site[2]
+        ctx.tag('geos-failure-injected')
+        if what == 'raised':
+            ctx.outcome(('geos', op, 'raised'))
+            continue
+        ctx.tag('result-returned-after-geos-failure')
+        if gap:
+            ctx.tag('result-returned-after-geos-failure-baseline-in-hull-of-concave-region-outside-it')
+        ctx.outcome(('geos', op, sum(len(r.lines) for r in val)))
+        if not check_regions(val, inputs, ctx, f'{ID}/assign/after-failed-{op}',
+                             f'{desc}; call #{k} of the library to the geometry library ({op} in {site[1]}) raised {kind}', case, must_place=False):
+            return
+
+
 def check_assign(case, ctx):
     from pero_ocr.core.layout import RegionLayout, PageLayout
     from pero_ocr.layout_engines.layout_helpers import assign_lines_to_regions
+    if case.get('geos_fails'):
+        return check_assign_geos(case, ctx)
     regs = [RegionLayout(f'r{i}', np.asarray(REGIONS[i], dtype=np.float64)) for i in case['regions']]
     inputs = make_inputs(case['lines'], dt=case.get('dt'))
     ctx.state((tuple(case['regions']), tuple(case['lines']), case.get('dt')))
@@ -309,20 +390,43 @@ def check_extractor(case, ctx):
     from pero_ocr.document_ocr.page_parser import LayoutExtractor
     dr, dl, ml, mo = case['extractor']
     scen = SCENARIOS[case['scenario']]
-    ex = make_extractor(dr, dl, ml, mo)
-    ex.engine = StubEngine(scen)
-    page = PageLayout(id='p', page_size=(100, 100))
-    if not dr:
-        page.regions = [RegionLayout(f'r{i:03d}', np.asarray(REGIONS[i], dtype=np.float64)) for i in scen[0][0]]
-    ctx.state(('extractor', tuple(case['extractor']), case['scenario']))
-    out = ex.process_page(np.zeros((100, 100, 3), np.uint8), page)
-    ctx.executed()
+
+    def run():
+        ex = make_extractor(dr, dl, ml, mo)
+        ex.engine = StubEngine(scen)
+        page = PageLayout(id='p', page_size=(100, 100))
+        if not dr:
+            page.regions = [RegionLayout(f'r{i:03d}', np.asarray(REGIONS[i], dtype=np.float64)) for i in scen[0][0]]
+        return ex.process_page(np.zeros((100, 100, 3), np.uint8), page)
     rots = [0, 1, 3] if mo else [0]
     all_lines = sorted({i for r in rots for i in scen[r][1]}, key=str)
     inputs = make_inputs(all_lines, scen.get('heights', HEIGHTS))
     desc = (f'LayoutExtractor(detect_regions={bool(dr)}, detect_lines={bool(dl)}, merge_lines={bool(ml)}, multi_orientation={bool(mo)}), '
             f'stub detections per rotation {scen}')
     key = f'{ID}/LayoutExtractor/' + ('regions-kept' if not dr else 'regions-detected') + ('+multi-orientation' if mo else '')
+    if case.get('geos_fails'):
+        # ONE call of the library to the geometry library fails (all fault points in turn): the page may fail; a page that is returned
+        # has distinct ids and every line inside its region (and, without merging, a clipped piece of a detection - the longest one)
+        ctx.state(('extractor', tuple(case['extractor']), case['scenario'], 'geos', case['geos_fails'], bool(case.get('geos_props'))))
+        for k, site, (what, val) in geos_injector(case).explore(run):
+            ctx.executed()
+            if k is None:
+                if what == 'raised':
+                    return
+                continue
+            ctx.tag('geos-failure-injected-in-extractor')
+            if what == 'raised':
+                ctx.outcome(('extractor-geos', site[2], 'raised'))
+                continue
+            ctx.tag('page-returned-after-geos-failure')
+            ctx.outcome(('extractor-geos', site[2], sum(len(r.lines) for r in val.regions)))
+            kk, dd = f'{key}/after-failed-{site[2]}', f'{desc}; call #{k} of the library to the geometry library ({site[2]} in {site[1]}) raised {case["geos_fails"]}'
+            if not (ids_only(val, ctx, kk, dd, case) if ml else check_regions(val.regions, inputs, ctx, kk, dd, case, check_presence=False)):
+                return
+        return
+    ctx.state(('extractor', tuple(case['extractor']), case['scenario']))
+    out = run()
+    ctx.executed()
     # merged lines are re-fitted curves, not pieces of single detections -> containment/ids only
     if ml and scen.get('nothing_to_merge'):
         ok = ids_only(out, ctx, key, desc, case) and check_regions(out.regions, inputs, ctx, key + '/merge-lines-nothing-to-merge', desc, case, check_presence=False)
@@ -399,10 +503,14 @@ def describe(tier):
         'rule': 'all sets of 1..max_regions regions (10-polygon alphabet) x all sets of 1..3 baselines (13-line alphabet) through '
                 'assign_lines_to_regions; 16 option combinations x 3 stub-detection scenarios through LayoutExtractor.process_page; 3 through '
                 'TextlineExtractorSimple. state = distinct configuration. Non-trivial: >= 2 regions with >= 2 placed lines; counters for multi-piece '
-                'intersections and wholly-inside lines.',
-        'bounds': BOUNDS[tier], 'alphabets': {'regions': REGIONS, 'baselines': LINES, 'heights': HEIGHTS},
-        'assumptions': ['invalid region polygons are judged against their convex hull', 'merged lines (MERGE_LINES) are only checked for containment and ids'],
+                'intersections and wholly-inside lines. Fault sweep: every call of the library to a GEOS operation fails once (two error classes), '
+                'counted per fault point, per returned result, and per returned result where a baseline runs through the hull of a concave region outside it.',
+        'bounds': BOUNDS[tier], 'alphabets': {'regions': REGIONS, 'baselines': LINES, 'heights': HEIGHTS, 'geos_errors': GEOS_ERRORS},
+        'assumptions': ['invalid region polygons are judged against their convex hull', 'merged lines (MERGE_LINES) are only checked for containment and ids',
+                        'after an injected failure of a geometry operation any exception is accepted and no line is demanded; everything placed is judged as always'],
         'min_nontrivial': 100,
         'required_tags': ['merge-lines-on-tilted-text-without-merging', 'integer-or-float32-detections', 'several-regions-several-placed-lines', 'several-pieces', 'wholly-inside', 'extractor-pages-with-lines',
-                          'merge-lines-coverage'],
+                          'merge-lines-coverage', 'geos-failure-injected', 'result-returned-after-geos-failure',
+                          'result-returned-after-geos-failure-baseline-in-hull-of-concave-region-outside-it', 'geos-failure-injected-in-extractor',
+                          'page-returned-after-geos-failure'],
     }
